@@ -739,11 +739,12 @@ func runSwarm(t *testing.T, tape *simrt.Tape, g simrt.Gen, o *common.Outcome) {
 		}
 	}
 	// read-only: drive the shared counters on after the read-only swarm is gone
-	var roTail [2][]bool
+	// (0 request, 1 failure, 2 success), applied to the shared counter and to a twin that never met the swarm
+	var roTail [2][]int
 	if readOnly {
 		for k := 0; k < 2; k++ {
-			for i := g.Range(0, 2*cfgN[k]); i > 0; i-- {
-				roTail[k] = append(roTail[k], !g.Chance(1, 2))
+			for i := g.Range(0, 3*cfgN[k]+3); i > 0; i-- {
+				roTail[k] = append(roTail[k], g.Weighted(3, 3, 1))
 			}
 		}
 	}
@@ -757,10 +758,10 @@ func runSwarm(t *testing.T, tape *simrt.Tape, g simrt.Gen, o *common.Outcome) {
 	o.Logf("stratum=swarm mode=%d readOnly=%v udp{N=%d M=%d on=%v} ipv6{N=%d M=%d on=%v} defaultRanker=%v overlap=%v net0{udp=%v ipv6=%v} ops=%d live=%v",
 		mode, readOnly, cfgN[0], cfgM[0], enabled[0], cfgN[1], cfgM[1], enabled[1], defaultRanker, overlap, initUp[0], initUp[1], len(ops), liveLen)
 
-	var ctr [2]*swarm.BlackHoleSuccessCounter
+	var ctr, twin [2]*swarm.BlackHoleSuccessCounter
 	var finalSt [2]string
 	var finalT time.Duration
-	var tailSt [2][]string
+	var tailObs, twinObs [2][]string
 	finished := false
 	states := func() [2]string {
 		var st [2]string
@@ -781,6 +782,7 @@ func runSwarm(t *testing.T, tape *simrt.Tape, g simrt.Gen, o *common.Outcome) {
 		for k := 0; k < 2; k++ {
 			if enabled[k] {
 				ctr[k] = &swarm.BlackHoleSuccessCounter{N: cfgN[k], MinSuccesses: cfgM[k], Name: kindName[k]}
+				twin[k] = &swarm.BlackHoleSuccessCounter{N: cfgN[k], MinSuccesses: cfgM[k], Name: kindName[k] + "-twin"}
 			}
 		}
 		ps, err := pstoremem.NewPeerstore()
@@ -881,6 +883,7 @@ func runSwarm(t *testing.T, tape *simrt.Tape, g simrt.Gen, o *common.Outcome) {
 				if ctr[op.dirK] != nil {
 					for _, ok := range op.dirOK {
 						ctr[op.dirK].RecordResult(ok)
+						twin[op.dirK].RecordResult(ok)
 					}
 				}
 				nextMs()
@@ -918,9 +921,21 @@ func runSwarm(t *testing.T, tape *simrt.Tape, g simrt.Gen, o *common.Outcome) {
 			if ctr[k] == nil {
 				continue
 			}
-			for _, ok := range roTail[k] {
-				ctr[k].RecordResult(ok)
-				tailSt[k] = append(tailSt[k], ctr[k].State().String())
+			for _, ev := range roTail[k] {
+				for i, c := range []*swarm.BlackHoleSuccessCounter{ctr[k], twin[k]} {
+					obs := ""
+					if ev == 0 {
+						obs = "request=" + c.HandleRequest().String() + " "
+					} else {
+						c.RecordResult(ev == 2)
+					}
+					obs += "state=" + c.State().String()
+					if i == 0 {
+						tailObs[k] = append(tailObs[k], obs)
+					} else {
+						twinObs[k] = append(twinObs[k], obs)
+					}
+				}
 			}
 		}
 		finished = true
@@ -950,7 +965,7 @@ func runSwarm(t *testing.T, tape *simrt.Tape, g simrt.Gen, o *common.Outcome) {
 		o.Trouble = fmt.Sprintf("goroutines left after swarm and peerstore were closed: %v", res.Residue)
 		return
 	}
-	checkSwarm(o, w, ops, readOnly, !defaultRanker, cfgN, cfgM, enabled, finalSt, finalT, roTail, tailSt)
+	checkSwarm(o, w, ops, readOnly, !defaultRanker, cfgN, cfgM, enabled, finalSt, finalT, roTail, tailObs, twinObs)
 }
 
 type evT struct {
@@ -962,7 +977,7 @@ type evT struct {
 }
 
 func checkSwarm(o *common.Outcome, w *world, ops []*opT, readOnly, noDelay bool, cfgN, cfgM [2]int, enabled [2]bool,
-	finalSt [2]string, finalT time.Duration, roTail [2][]bool, tailSt [2][]string) {
+	finalSt [2]string, finalT time.Duration, roTail [2][]int, tailObs, twinObs [2][]string) {
 	var evs []evT
 	for i, op := range ops {
 		if !op.issued {
@@ -1278,15 +1293,30 @@ func checkSwarm(o *common.Outcome, w *world, ops []*opT, readOnly, noDelay bool,
 	o.Logf("%v final State(): udp=%s ipv6=%s", finalT, finalSt[0], finalSt[1])
 	fmt.Fprintf(&sig, "f%v;", finalSt)
 	if readOnly {
+		// the counters outlive the read-only swarm: driven on, they must behave like a twin that received
+		// the same direct records and never met the swarm (State() also has to follow the reference)
 		for k := 0; k < 2; k++ {
-			for i, ok := range roTail[k] {
-				ref[k].record(ok)
-				if i < len(tailSt[k]) && tailSt[k][i] != ref[k].state() {
-					viol("C20/read-only/state-changed/"+kindName[k], "after the read-only swarm was closed, direct record #%d (%v) on the %s counter gives State() = %s, want %s: the read-only phase left hidden changes",
-						i, ok, kindName[k], tailSt[k][i], ref[k].state())
+			for i, ev := range roTail[k] {
+				if i >= len(tailObs[k]) || i >= len(twinObs[k]) {
+					break
+				}
+				if ev != 0 {
+					ref[k].record(ev == 2)
+				}
+				what := []string{"HandleRequest", "RecordResult(false)", "RecordResult(true)"}[ev]
+				if tailObs[k][i] != twinObs[k][i] {
+					viol("C20/read-only/state-changed/"+kindName[k], "after the read-only swarm was closed, tail step %d %s on the %s counter: %s, on a twin that never met the swarm: %s (tail %v): the read-only phase left hidden changes",
+						i, what, kindName[k], tailObs[k][i], twinObs[k][i], roTail[k])
+					break
+				}
+				if !strings.HasSuffix(tailObs[k][i], "state="+ref[k].state()) {
+					viol("C20/read-only/state-changed/"+kindName[k], "after the read-only swarm was closed, tail step %d %s on the %s counter: %s, reference %s",
+						i, what, kindName[k], tailObs[k][i], ref[k].state())
+					break
 				}
 			}
-			fmt.Fprintf(&sig, "t%v;", tailSt[k])
+			o.Logf("tail %s %v -> %v", kindName[k], roTail[k], tailObs[k])
+			fmt.Fprintf(&sig, "t%v;", tailObs[k])
 		}
 	}
 	o.Sig = "B/" + sig.String()
